@@ -98,6 +98,69 @@ def cache_family(ck, harness, hist):
             ck.sample({"cache_script": ops, "bits": bits, "keys_compared": n, "reload_ok": ret})
 
 
+def search_family(ck, harness, hist):
+    """search::save / search::load of the evaluator cache to env.misc.serialization_file, through the
+    evaluator_proxy: identical cache lookups in the original and in the reloaded search object"""
+    rnd = ck.rng
+    if ck.replay_path:
+        rp = json.load(open(ck.replay_path))
+        cases = [tuple(rp["search"])] if "search" in rp else []
+    else:
+        cases = [(6, 5, 7, -1, "ok"), (6, 8, 11, 3, "ok"), (3, 12, 5, -1, "ok"), (2, 9, 4, 4, "ok"),
+                 (6, 4, 9, -1, "none"), (6, 4, 9, -1, "bad")]
+        for _ in range(200 if ck.thorough else 24):
+            n = rnd.randint(1, 14)
+            cases.append((rnd.choice([1, 2, 3, 5, 8]), n, rnd.randint(1, 2**31 - 1), rnd.choice([-1, -1, rnd.randint(0, n - 1)]), "ok"))
+    if not cases:
+        return
+    lines = ["SEARCH %d %d %d %d %s" % c for c in cases]
+    out, crashes = sc.run_harness_chunks(harness, lines, 50)
+    for i, c in enumerate(cases):
+        ck.count()
+        hist["SEARCH"] = hist.get("SEARCH", 0) + 1
+        ho = out[i]
+        replay = {"search": list(c), "harness_line": lines[i], "impl": (ho or "")[:2000]}
+        if ho is None or ho.startswith("CRASH") or ho.startswith("EXC"):
+            replay["sanitizer"] = crashes.get(i, "")[-2500:]
+            ck.add_violation("SEARCH:save-load-crash", "search::save/load %s crashes: %s" % (c, (ho or "")[:60]), replay)
+            continue
+        f = sc.fields(ho)
+        if f[0] != "OK" or len(f) < 6:
+            ck.add_diff({"search": list(c)}, "", ho, "harness protocol")
+            continue
+        sret, lret, content, csave = f[1:5]
+        w = f[5].split()
+        n = int(w[0])
+        rows = [w[1 + 6 * j: 7 + 6 * j] for j in range(n)]
+        problems = []
+        if c[4] == "bad":
+            if sret != "0" or lret != "0":
+                problems.append("save/load on an unusable file return %s/%s instead of false" % (sret, lret))
+        elif c[4] == "none":
+            if sret != "1" or lret != "1" or content != "-":
+                problems.append("without a serialization file save/load must return true and write nothing")
+        else:
+            ck.nontriv(("SEARCH",) + c)
+            if sret != "1" or lret != "1":
+                problems.append("search::save returns %s, search::load returns %s" % (sret, lret))
+            if content != csave:
+                problems.append("the file is not what cache::save of the proxy's cache writes")
+            for sig, f1, f2, pre2, hit2, e2 in rows:
+                if f1 != f2:
+                    problems.append("individual %s: original cache answers %s, reloaded cache answers %s" % (sig, f1, f2))
+                elif (hit2 == "1") != (pre2 != "-") or (hit2 == "1" and e2 != pre2):
+                    problems.append("individual %s: the reloaded proxy %s the evaluator although its cache answers %s"
+                                    % (sig, "does not call" if hit2 == "1" else "calls", pre2))
+        if problems:
+            replay["problems"] = problems[:6]
+            replay["file"] = sc.unhex(content).decode("latin1")[:1500]
+            ck.add_violation("SEARCH:lookups-differ-after-reload",
+                             "search<i_mep> with 2^%d cache slots, %d individuals, seed %d, clear after %d, file %s: %s"
+                             % (c + ("; ".join(problems[:3]),)), replay)
+        if i < 1:
+            ck.sample({"search": list(c), "file": sc.unhex(content).decode("latin1")[:200], "individuals": n})
+
+
 def run(ck):
     harness, model = sc.build(ck)
     ck.add_proof(vv.prove("Properties_C11", set()))
@@ -110,7 +173,7 @@ def run(ck):
         rp = json.load(open(ck.replay_path))
         cases = [tuple(c) for c in rp.get("cases", [])] or ([tuple(rp["case"])] if "case" in rp else [])
     else:
-        cases = sc.gen_objects(ck, 120 if ck.thorough else 14)
+        cases = sc.gen_objects(ck, 400 if ck.thorough else 14)
 
         # a distribution fed with finite values whose squares overflow (known finding)
         cases += [("DISTX", 0, ck.rng.randint(1, 2**31 - 1), s) for s in (0, 5)]
@@ -204,6 +267,7 @@ def run(ck):
                         "model and implementation load differently")
     # ---- the fitness cache (also after clears): identical lookups for EVERY key ever used
     cache_family(ck, harness, hist)
+    search_family(ck, harness, hist)
     ck.coverage["per_type"] = hist
     return ck.finish(
         rule="objects of 15 persistable types (hash, fitness, i_mep over 1- and 2-category symbol sets, i_ga, i_de, team, "
@@ -211,4 +275,6 @@ def run(ck):
              "0..30 operator steps (mutation, crossover, ageing, layer add/remove/shrink, extreme finite constants); "
              "non-trivial = history of >= 3 steps (or any hash/fitness); distinct = distinct (type, object dump); "
              "plus fitness-cache scripts (insert / clear() / clear(key) / insert on colliding key pools): save, load into a "
-             "fresh cache, every key ever used looked up in both, save(load(save)); non-trivial = script with a clear")
+             "fresh cache, every key ever used looked up in both, save(load(save)); non-trivial = script with a clear; plus "
+             "search<i_mep>::save/load of the evaluator cache to env.misc.serialization_file through evaluator_proxy "
+             "(counting evaluator): file bytes = cache::save, identical lookups, hits of the reloaded proxy")
